@@ -181,6 +181,87 @@ def run_lsm(case, crash_at=None):
     return rec, lsm, wal
 
 
+def phase_ops(case):
+    """[(op id, op)] of a multi-crash case; op id = 1000·phase + 100·worker + index"""
+    out = []
+    for p, ph in enumerate(case["phases"]):
+        for w, wk in enumerate(ph["workers"]):
+            for j, op in enumerate(wk["ops"]):
+                if op[0] != "sleep":
+                    out.append((p * 1000 + w * 100 + j, op))
+    return out
+
+
+def run_phases(case, on_crash):
+    """multi-crash run: one LSMTree + WriteAheadLog, one Simulation per phase (the operations in flight at a crash
+    are abandoned with their simulation); phase p stops when `crash` segments of it have executed (None: runs to the
+    end), then `on_crash(p, rec, lsm, wal, first)` performs crash()/recover and records what it needs (`first` =
+    global index of the phase's first segment).  One Rec with a global segment index for the whole case."""
+    from happysimulator.components.storage import lsm_tree as L
+    from happysimulator.components.storage.wal import WriteAheadLog
+    from happysimulator.core.entity import Entity
+    from happysimulator.core.event import Event
+    from happysimulator.core.simulation import Simulation
+    from happysimulator.core.temporal import Instant
+
+    keys = case["keys"]
+    rec = Rec(max_segments=8000)
+    lat = case.get("lat", {})
+    wal = WriteAheadLog("wal", sync_policy=make_policy(case["wal"], rec),
+                        write_latency=lat.get("ww", 100) * 1e-6, sync_latency=lat.get("ws", 1000) * 1e-6)
+    lsm = L.LSMTree("lsm", memtable_size=case["mem"], compaction_strategy=make_strategy(case["strategy"]),
+                    wal=wal, sstable_read_latency=lat.get("r", 1000) * 1e-6,
+                    sstable_write_latency=lat.get("w", 2000) * 1e-6, max_levels=case["levels"])
+
+    class Worker(Entity):
+        def __init__(self, base, ops):
+            super().__init__(f"w{base}")
+            self.base, self.ops_ = base, ops
+
+        def handle_event(self, event):
+            for j, op in enumerate(self.ops_):
+                if op[0] == "sleep":
+                    yield op[1] * 1e-6
+                    continue
+                opid = self.base + j
+                if op[0] == "put":
+                    g = lsm.put(keys[op[1]], op[2])
+                elif op[0] == "del":
+                    g = lsm.delete(keys[op[1]])
+                elif op[0] == "get":
+                    g = lsm.get(keys[op[1]])
+                else:
+                    g = lsm.scan(keys[op[1]], keys[op[2]] if op[2] < len(keys) else "~")
+                seq = (wal.stats.writes + 1) if op[0] in ("put", "del") else 0
+                entry = [op, len(rec.sched), None, None, seq]
+                res = yield from traced(rec, opid, g, entry)
+                entry[2] = len(rec.sched) - 1
+                if op[0] == "get":
+                    entry[3] = "-" if res is None else str(res)
+                elif op[0] == "scan":
+                    entry[3] = ",".join(f"{keys.index(k)}={v}" for k, v in res) or "."
+                else:
+                    entry[3] = "ok"
+
+    bounds = []
+    for p, ph in enumerate(case["phases"]):
+        first = len(rec.sched)
+        rec.crash_at = None if ph.get("crash") is None else first + ph["crash"]
+        t0 = 100.0 * p
+        workers = [Worker(p * 1000 + i * 100, w["ops"]) for i, w in enumerate(ph["workers"])]
+        sim = Simulation(start_time=Instant.from_seconds(t0), end_time=Instant.from_seconds(t0 + 50.0),
+                         entities=[lsm, wal] + workers)
+        sim.schedule([Event(time=Instant.from_seconds(t0 + w["start"] * 1e-6), event_type="go", target=workers[i])
+                      for i, w in enumerate(ph["workers"])])
+        try:
+            sim.run()
+        except _Stop:
+            pass
+        bounds.append((first, len(rec.sched)))
+        on_crash(p, rec, lsm, wal, first)
+    return rec, bounds
+
+
 def op_lines(rec):
     out = []
     for opid in sorted(rec.ops):
